@@ -12,15 +12,18 @@ SPECIAL = {
  # runs exhaust cbmc's memory (symbolic-size object havoc at symbolic offsets); they get plain bounded runs (fixed part of obligations/C02.json)
  "cmdline": {"skip": "see C02.ds.cmdline.sizes (bounded in the number of arguments)"},
  "env_all": {"skip": "see C02.ds.env_all.sizes (bounded in the number of variables)"},
- "username": {"sources": ["src/util/pwd.c"]},
+ "username": {"sources": ["src/util/pwd.c"], "replay": "c12_narrowing"},
+ "timestamp": {"replay": "c12_narrowing"},
  "tty_uid": {"sources": ["src/datasource/tty__common.c"]},
- "tty_username": {"sources": ["src/datasource/tty__common.c", "src/util/pwd.c"]},
+ "tty_username": {"sources": ["src/datasource/tty__common.c", "src/util/pwd.c"], "replay": "c12_narrowing"},
  "ipaddr": {"sources": ["src/util/utmp.c"]},
  "snoopy_threads": {"defines": ["H_TSRM_STUB"]},
- "domain": {"bound": "/etc/hosts of at most 3 lines (each of any length up to the 1024-byte line buffer)", "defines": ["H_LINES=3"], "unwind": 64},
- "cgroup": {"skip": "see C02.ds.cgroup (bounded) in obligations/C02.json"},
- "rpname": {"skip": "see C02.ds.rpname (bounded)"},
- "systemd_unit_name": {"skip": "see C02.ds.systemd (bounded)"},
+ # readers of /etc/hosts and procfs (loops over file content, strtok_r/strcasestr on 1-10 KiB buffers): DFCC-instrumented bounded runs
+ # (<= 2 lines, <= 2 ancestors) did not finish within 900 s each; NOT under a run - listed in the evidence as uncovered functions
+ "domain": {"skip": "parked: bounded DFCC run > 900 s"},
+ "cgroup": {"skip": "parked: bounded DFCC run > 900 s"},
+ "rpname": {"skip": "parked: bounded DFCC run > 900 s"},
+ "systemd_unit_name": {"skip": "parked: calls cgroup"},
 }
 runs = []
 files = sorted(glob.glob(os.path.join(repo, "src/datasource/*.c")))
@@ -41,5 +44,7 @@ for f in files:
             del r["dfcc"]; r["includes"] = ["include/verif_ds.h"]; r["must_fire"] = ["NUL-terminated inside the buffer"] + sp.get("must_fire", [])
             r["what"] = r["what"].replace("enforced against the data-source contract (contracts/datasource.h)", "against the data-source contract stated by the harness (no DFCC frame instrumentation)")
         if sp.get("loops"): r["dfcc"]["loops"] = sp["loops"]
+        if sp.get("tier"): r["tier"] = sp["tier"]
+        if sp.get("replay"): r["replay"] = sp["replay"]
         runs.append(r)
 print(json.dumps(runs))
